@@ -170,7 +170,7 @@ func genC11(driver string, col *ev.Collector) func(*rapid.T) c11Case {
 			// advisories of one version for those of the next, so follow-up attempts come several
 			// at a time and one advisory set is reached by more than one route
 			c.Scenario = universe.GenChainScenario(t, universe.ChainConfig{
-				Steps: []string{universe.LevelMajor, universe.LevelMinor, universe.LevelPatch}, Levels: true})
+				Steps: []string{universe.LevelMajor, universe.LevelMinor, universe.LevelPatch}, Levels: true, Prereleases: true})
 		} else if driver == drvMavenOverride && pct(t, "override_chain?") < 20 {
 			// override chains: the override that fixes one advisory pulls in (or raises) another
 			// package at a version a second advisory affects; that package is not affected in the
